@@ -66,3 +66,12 @@ OBLIGATIONS = [
     Ob("carets_n6", carets_n6, bytes_params("d", 6), tier="thorough", timeout=1200, functions=F, bound="all inputs of length 6"),
     Ob("carets_n7", carets_n7, bytes_params("d", 7), tier="thorough", timeout=3000, functions=F, bound="all inputs of length 7"),
 ]
+
+
+def carets_n8(d0, d1, d2, d3, d4, d5, d6, d7):
+    return _strip(bytes([d0, d1, d2, d3, d4, d5, d6, d7]))
+
+
+_CLS = ["d0 == 94", "d0 == 34", "d0 == 13", "d0 != 94 and d0 != 34 and d0 != 13"]
+OBLIGATIONS.append(Ob("carets_n8", carets_n8, bytes_params("d", 8), tier="thorough", timeout=2400, functions=F, bound="all inputs of length 8",
+                      splits=[f"({a}) and ({b.replace('d0', 'd1')})" for a in _CLS for b in _CLS]))
